@@ -58,19 +58,22 @@ pub open spec fn batch_fails(env: &WEnv) -> Seq<int> { fail_ids(env.verdicts@, e
 pub fn timeout(maxtime: Duration, fut: RecvFut, env: &mut WEnv) -> (r: Result<Result<(Event, Priority), RecvErr>, Elapsed>)
     requires 0 <= old(env).mark@ <= old(env).recvd@.len(), verdicts_in_range(old(env)),
         // C02: never wait longer than the rest of the window (the batch is delivered within a bounded delay after the window ends)
-        maxtime.inf || (old(env).throttle_const@ is Some ==> old(env).now@ + maxtime.ns <= old(env).last_now@ + old(env).throttle_const@->Some_0), // OBL:C02.recv_timeout_never_exceeds_the_window
+        maxtime.inf || (old(env).throttle_const@ is Some && batch_t(old(env)).len() > 0 ==>
+            old(env).now@ + maxtime.ns <= batch_t(old(env))[0] + old(env).throttle_const@->Some_0 + (old(env).slack@ - old(env).slack_mark@)), // OBL:C02.recv_timeout_never_exceeds_the_window
     ensures
         final(env).now@ >= old(env).now@, final(env).verdicts == old(env).verdicts, final(env).filter_calls == old(env).filter_calls,
         final(env).errs == old(env).errs, final(env).throttle_const == old(env).throttle_const, final(env).last_now == old(env).last_now, final(env).mark == old(env).mark,
         verdicts_in_range(final(env)), batch_fails(final(env)) == batch_fails(old(env)),
+        final(env).slack_mark == old(env).slack_mark,
         match r {
             Ok(Ok((e, p))) => final(env).recvd@ == old(env).recvd@.push(Msg { ev: e, prio: p, t: final(env).now@ })
-                && (!maxtime.inf ==> final(env).now@ <= old(env).now@ + maxtime.ns)
+                && (!maxtime.inf ==> final(env).now@ <= old(env).now@ + maxtime.ns) && final(env).slack == old(env).slack
                 && batch(final(env)) == (if p == Priority::Urgent || e.empty { batch(old(env)).push(e) } else { batch(old(env)) })
                 && batch_t(final(env)) == (if p == Priority::Urgent || e.empty { batch_t(old(env)).push(final(env).now@) } else { batch_t(old(env)) })
                 && batch_filtered(final(env)) == (if p != Priority::Urgent && !e.empty { batch_filtered(old(env)).push(old(env).recvd@.len() as int) } else { batch_filtered(old(env)) }),
             Ok(Err(_)) => final(env).recvd == old(env).recvd,
-            Err(_) => final(env).recvd == old(env).recvd && !maxtime.inf && final(env).now@ >= old(env).now@ + maxtime.ns,
+            Err(_) => final(env).recvd == old(env).recvd && !maxtime.inf && final(env).now@ >= old(env).now@ + maxtime.ns
+                && final(env).slack@ == old(env).slack@ + (final(env).now@ - (old(env).now@ + maxtime.ns)),
         }
 {
     let r = timeout_raw(maxtime, fut, env);
@@ -92,6 +95,7 @@ impl FiltererS {
             final(env).now@ >= old(env).now@, final(env).recvd == old(env).recvd, final(env).errs == old(env).errs,
             final(env).throttle_const == old(env).throttle_const, final(env).closed == old(env).closed, final(env).last_now == old(env).last_now, final(env).mark == old(env).mark,
             final(env).filter_calls@ == old(env).filter_calls@.push(old(env).recvd@.len() - 1),
+            final(env).slack_mark == old(env).slack_mark, final(env).slack@ == old(env).slack@ + (final(env).now@ - old(env).now@),
             verdicts_in_range(final(env)),
             batch(final(env)) == (if r == Ok::<bool, RuntimeError>(true) { acc(old(env).recvd@, old(env).verdicts@, old(env).mark@, old(env).recvd@.len() - 1).push(old(env).recvd@.last().ev) }
                     else { acc(old(env).recvd@, old(env).verdicts@, old(env).mark@, old(env).recvd@.len() - 1) }),
